@@ -374,6 +374,18 @@ func randText(rng *rand.Rand, n int, class int) []uint16 {
 				v = uint16(0xE000 + rng.Intn(0x1FFE))
 			}
 			u = append(u, v)
+		case 3: // unpaired surrogates (cut-off pairs, stray halves), also as the very last code unit
+			switch rng.Intn(4) {
+			case 0:
+				u = append(u, uint16(0xD800+rng.Intn(0x400)))
+			case 1:
+				u = append(u, uint16(0xDC00+rng.Intn(0x400)))
+			default:
+				u = append(u, uint16(0x20+rng.Intn(0x5f)))
+			}
+			if len(u) == n && rng.Intn(2) == 0 {
+				u[n-1] = uint16(0xD800 + rng.Intn(0x800))
+			}
 		default:
 			if rng.Intn(3) == 0 && len(u)+2 <= n {
 				r := rune(0x10000 + rng.Intn(0x100000))
@@ -451,7 +463,7 @@ func init() {
 						if tl > 2 {
 							tl = rng.Intn(tl + 1)
 						}
-						recs = append(recs, mlucRec{l, ctry, randText(rng, tl, rng.Intn(3))})
+						recs = append(recs, mlucRec{l, ctry, randText(rng, tl, rng.Intn(4))})
 					}
 					if rng.Intn(6) == 0 && nrec > 1 { // duplicate (language, country) key: last one wins
 						recs[nrec-1].lang, recs[nrec-1].country = recs[0].lang, recs[0].country
